@@ -163,6 +163,61 @@ pub fn tok_clone<const N: usize>() {
     cover!(N < 2 || (m.len == 1 && !m.slot_live(0)), "live entity in a later slot position");
 }
 
+/// clone_from onto an ARBITRARY non-fresh target of the same capacity: the target's old values are
+/// dropped exactly once (not leaked, not dropped twice), each live source value is cloned exactly
+/// once, the source's values are not dropped; then both worlds are dropped.
+/// Source tokens have ids 0..len_s, target tokens ids 4..4+len_t, clones ids 8..8+len_s.
+pub fn tok_clone_from<const N: usize>() {
+    reset();
+    let s: Model<N> = Model::any_inv();
+    let t: Model<N> = Model::any_inv();
+    let mut i = 0;
+    while i < N {
+        sym::assume(s.val[i] == i as u8);
+        sym::assume(t.val[i] == 4 + i as u8);
+        i += 1;
+    }
+    let src = load::<TokM, N>(&s);
+    let mut dst = load::<TokM, N>(&t);
+    if sym::any_bool() {
+        dst.clone_from(&src);
+    } else {
+        dst.arch_tok.clone_from(&src.arch_tok);
+    }
+    unsafe {
+        let mut i = 0;
+        while i < 4 {
+            assert!(CLONES[i] == if i < s.len { 1 } else { 0 }, "clone_from did not clone each live source component exactly once");
+            assert!(DROPS[i] == 0, "clone_from dropped a value of the source");
+            assert!(DROPS[4 + i] == if i < t.len { 1 } else { 0 }, "clone_from did not drop each old value of the target exactly once");
+            assert!(DROPS[8 + i] == 0, "clone_from dropped a fresh clone");
+            i += 1;
+        }
+        assert!(ZCLONES as usize == s.len && ZDROPS as usize == t.len, "clone_from: zero-sized component clone/drop counts");
+    }
+    assert!(dst.arch_tok.len() == s.len, "clone_from: target len");
+    drop(dst);
+    unsafe {
+        let mut i = 0;
+        while i < 4 {
+            assert!(DROPS[8 + i] == if i < s.len { 1 } else { 0 }, "dropping the target did not drop exactly the clones");
+            assert!(DROPS[i] == 0 && DROPS[4 + i] <= 1, "dropping the target dropped a foreign value");
+            i += 1;
+        }
+    }
+    drop(src);
+    unsafe {
+        let mut i = 0;
+        while i < 4 {
+            assert!(DROPS[i] == if i < s.len { 1 } else { 0 }, "after dropping both worlds every source value is dropped exactly once");
+            i += 1;
+        }
+        assert!(ZDROPS as usize == t.len + 2 * s.len, "zero-sized drops after both worlds are gone");
+    }
+    cover!(N < 2 || t.len > s.len, "target held more entities than the source");
+    cover!(N < 2 || t.len < s.len, "target held fewer entities than the source");
+}
+
 /// ecs_iter_destroy!: the flagged ones are dropped exactly once inside the loop.
 pub fn tok_iter_destroy<const N: usize>() {
     let (mut world, m) = tok_state::<N>();
@@ -297,3 +352,5 @@ harness! { fn c04_clone_2() unwind(10) { tok_clone::<2>() } }
 harness! { fn c04_iter_destroy_3() unwind(10) { tok_iter_destroy::<3>() } }
 harness! { fn c04_iter_destroy_2() unwind(10) { tok_iter_destroy::<2>() } }
 harness! { fn c04_history() unwind(10) { tok_history() } }
+harness! { fn c04_clone_from_3() unwind(10) { tok_clone_from::<3>() } }
+harness! { fn c04_clone_from_2() unwind(10) { tok_clone_from::<2>() } }
